@@ -22,8 +22,10 @@ META = {
     'design_ref': 'DESIGN.md section 4 / C17',
     'note': ('Trusted: Coq kernel + vm_compute; the harness dump and its 62-bit digests; translator facts. The '
              'monitor judges traces the generator produces (sampled); the theorems quantify over all histories of '
-             'passing steps. Concurrent readers are exercised, not enumerated (Common/Gate is not '
-             'instantiated for the Nexus lock).'),
+             'passing steps. Lock level: Nexus/Lock.v proves, for any number of sessions and any '
+             'interleaving, that a read under the read lock sees no half-applied statement (Common/Gate.v models a one-shot '
+             'retiring gate and does not fit a lock whose writers come and go); the guard placement is a generated fact; '
+             'real concurrent readers are exercised on a 4-thread runtime.'),
     'technique': 'Coq proof (monitor soundness by induction over histories) + certified monitor on real traces + translator-generated facts',
 }
 
@@ -54,8 +56,8 @@ def run(ck):
     ck.assume('the Space row sequence counter is the only state a refused statement may move; the three META answers that '
               'print it (DESCRIBE PRIMER / EXECUTION CONTEXT, LIST SPACES) are compared without it',
               'readers concurrent with writers are run on a 4-thread runtime (3 reader tasks against one writer) and each answer must '
-              'be the answer of a point between two statements; the schedules are the ones tokio produces, not an enumeration of '
-              'lock-level interleavings (Common/Gate is not instantiated for the Nexus lock)')
+              'be the answer of a point between two statements; the schedules are the ones tokio produces - the statement for all '
+              'interleavings is C17_readers_never_observe_a_partial_statement over the lock model')
     binary = ck.cargo('h_nexustx')
     if binary:
         out = ck.work + '/c17.jsonl'
